@@ -615,6 +615,21 @@ def run(chk: Check) -> None:
             continue
         run_parsers(s, in_domain=False)
 
+    # ---------------------------------------------------------------- the email.utils contract of C07_total_parse_date
+    import email.utils as _eu
+    bad_contract = 0
+    for s in date_boundaries() + [gen_structured(rng) for _ in range(n)] + [gen_hostile(rng) for _ in range(n // 2)] + corpus["parsers"]:
+        try:
+            with_timeout(_eu.parsedate_to_datetime, 3.0, s)
+        except (TypeError, ValueError, OverflowError):
+            pass
+        except Exception as e:  # noqa: BLE001
+            bad_contract += 1
+            if bad_contract <= 3:
+                chk.broken("contract", "email.utils.parsedate_to_datetime raises only TypeError / ValueError / OverflowError",
+                           f"{type(e).__name__}: {e} on {s!r}", case={"input": s})
+        chk.count("contract:parsedate_to_datetime")
+
     # ---------------------------------------------------------------- base64 (stdlib model under Authorization)
     import base64
     b64s = ["", "QQ==", "QQ=", "QQ", "Q", "QUI=", "QUJD", "Q=Q=", "=QQ==", "QQ==QQ==", "Q\xe9", "QQ==\xe9", "Q Q = =", "====", "QUJDRA", "QUJDRA=", "QUJDRA=="] + \
